@@ -81,7 +81,7 @@ class code_table {
     }
 
     inline bool has_null() {
-        return *m_alphabet.begin() == '\0';
+        return m_alphabet.size() != 0 && *m_alphabet.begin() == '\0';
     }
 
     inline auto begin() const {
